@@ -257,11 +257,19 @@ func (v *catalog_[K, V]) GetSize() int {
 }
 
 func (v *catalog_[K, V]) AsArray() []AssociationLike[K, V] {
-	return v.associations_.AsArray()
+	// Copy the associations so that later changes to this catalog do not show
+	// through the returned Go array (and vice versa).
+	var array = v.associations_.AsArray()
+	var Association = Association[K, V](v.GetClass().Notation())
+	for index, association := range array {
+		array[index] = Association.Make(association.GetKey(), association.GetValue())
+	}
+	return array
 }
 
 func (v *catalog_[K, V]) GetIterator() age.IteratorLike[AssociationLike[K, V]] {
-	return v.associations_.GetIterator()
+	var iterator = age.Iterator[AssociationLike[K, V]]().MakeFromArray(v.AsArray())
+	return iterator
 }
 
 // Sortable
